@@ -187,7 +187,15 @@ def run_case(case, ctx):
             return
         I = torch.eye(k, dtype=torch.float64)
         checks = []
-        checks.append(("orthonormal_basis", float((Q64.mT @ Q64 - I).abs().max()), max(tol, 1e-2 if dt == torch.float32 else 1e-8)))
+        # a new basis vector is the normalised residual: where the residual norm beta_j is small next to ||A|| (but above the library's
+        # absolute 1e-6 breakdown threshold, so the run legitimately continues) its direction carries rounding noise of relative size
+        # eps ||A|| / beta_j, which is the orthogonality attainable without full re-orthogonalisation in that dtype
+        otol = max(tol, 1e-2 if dt == torch.float32 else 1e-8)
+        if k > 1:
+            bmin = float(T64.diagonal(offset=-1, dim1=-2, dim2=-1).abs().min())
+            if bmin > 1e-6:
+                otol = max(otol, 20 * float(torch.finfo(dt).eps) * scale / bmin)
+        checks.append(("orthonormal_basis", float((Q64.mT @ Q64 - I).abs().max()), otol))
         tri = float(torch.triu(T64, 2).abs().max()) if k > 2 else 0.0
         checks.append(("tridiagonal_symmetric", max(tri, float((T64 - T64.mT).abs().max())) / scale, 1e-12))
         AQ = A64.unsqueeze(0) @ Q64
@@ -238,6 +246,13 @@ def run_case(case, ctx):
         elif cons == "root_inv":
             iv = init
             res, ex = compare.attempt(lambda: op.root_inv_decomposition(initial_vectors=iv, test_vectors=iv, method="lanczos").root.to_dense())
+            # the same run leaves the Lanczos ROOT of the operator in its cache (served to later root_decomposition() / sampling calls)
+            side = None
+            if ex is None and any((k[0] if isinstance(k, tuple) else k) == "root_decomposition" for k in getattr(op, "_memoize_cache", {})):
+                side, exs = compare.attempt(lambda: op.root_decomposition().root.to_dense())
+                if exs is not None:
+                    ctx.fail("consumer.root_inv_side_root", "exception", exc=exs, **kw)
+                    side = None
         else:
             res, ex = compare.attempt(lambda: tuple(x.to_dense() if hasattr(x, "to_dense") else x for x in op.diagonalization(method="lanczos")))
     oname = "consumer." + cons
@@ -248,6 +263,21 @@ def run_case(case, ctx):
             return
         ctx.fail(oname, "exception", exc=ex, **kw)
         return
+    if cons == "root_inv" and side is not None and n >= 2:
+        ctx.stat("side_effect_roots_checked")
+        if tuple(side.shape[:-1]) != (*batch, n):
+            ctx.fail("consumer.root_inv_side_root", "shape", detail=f"cached root has shape {tuple(side.shape)} for an operator of shape {tuple(A.shape)}", **kw)
+        elif not torch.isfinite(side).all():
+            ctx.fail("consumer.root_inv_side_root", "value", detail="non-finite cached root", **kw)
+        else:
+            Us, Ss, _ = torch.linalg.svd(side.to(torch.float64), full_matrices=False)
+            ks = (Ss > 1e-7 * Ss[..., :1].clamp_min(1e-300)).to(torch.float64)
+            Ps = (Us * ks.unsqueeze(-2)) @ Us.mT
+            es = float((side.to(torch.float64) @ side.to(torch.float64).mT - Ps @ A64 @ Ps).abs().max()) / scale
+            if not es <= 5e-3:
+                ctx.fail("consumer.root_inv_side_root", "value", err=es, detail=f"the root cached by the inverse-root run differs from the compression of A onto its range: err {es:.2e}", **kw)
+            else:
+                ctx.ok("consumer.root_inv_side_root", kb, True)
     if cons == "root_inv" and not (pd and kap <= 100):
         ctx.stat("root_inv_on_singular_or_ill_conditioned(not judged)")
         return
